@@ -56,6 +56,12 @@ def item_xml(it, i, rnd, late_anchor):
         return f'<g transform="translate(3 -2)">{rect}</g>', ""
     if k == "gscale":
         return f'<g transform="scale(2)">{rect}</g>', ""
+    if k == "gtransvar":
+        return f'<var tv{i}="3 -2"/><g transform="translate($tv{i})">{rect}</g>', ""
+    if k == "textdxy":
+        return f'<text xy="{q(x1)} {q(y1)}" text-dxy="4 -2">label</text>', ""
+    if k == "textloc":
+        return f'<text xy="{q(x1)} {q(y1)}" text-loc="br" text="label"/>', ""
     if k == "gflip":
         return f'<g transform="scale(-1)">{rect}</g>', ""
     if k == "gflipx":
